@@ -188,6 +188,7 @@ func engineCells(rc *RunCtx) *Outcome {
 	// are a column window of a wider table
 	reparam := rc.W.Bool(20)
 	windowed := reparam && !c.CPar && rc.W.Bool(50)
+	redim := reparam && rc.W.Bool(40)
 	var altCols [][]float64
 	if reparam {
 		for j := 0; j < c.P; j++ {
@@ -244,7 +245,25 @@ func engineCells(rc *RunCtx) *Outcome {
 		}
 		outputs := mk3(c.COut, oN, oO, oT, ov)
 		var model sim.TimeSteppingModel
-		if reparam {
+		if reparam && c.MaxDim > 0 && redim {
+			// re-dimensioned: the object first holds a configuration with LONGER tables (its own matrix),
+			// then goes through the whole protocol again with this case's matrix
+			bigDim := c.MaxDim + 1 + rc.W.Choose(3)
+			var bigCols [][]float64
+			for j := 0; j < c.P; j++ {
+				force := 0
+				if j == 0 {
+					force = bigDim
+				}
+				bigCols = append(bigCols, domains.GenParams(rc.W, c.Model, bigDim, force))
+			}
+			model = setupModel(c.Model, paramMatrix(false, bigCols))
+			if dims := model.FindDimensions(params); len(dims) > 0 {
+				model.InitialiseDimensions(dims)
+			}
+			model.ApplyParameters(params)
+			o.probe("model_object_re-dimensioned_to_shorter_tables")
+		} else if reparam {
 			for j, col := range altCols {
 				for i := range col {
 					params.Set2(i, j, col[i])
